@@ -111,6 +111,11 @@ def step (st : St) (toks : List String) : St × String :=
       (st, textToHex (String.intercalate ", " (sorted.map String.ofList)).toList)
     | none => (st, "bad-op")
   -- TOML round trip on the structured document
+  -- a logger started with a new specfile: the only prediction is "it returns" (C10)
+  | ["STARTSPECFILE", id] =>
+    match getSpec st id with
+    | some _ => (st, "ok")
+    | none => (st, "bad-op unknown spec")
   | ["TOML", id] =>
     match getSpec st id with
     | some s =>
